@@ -1,7 +1,7 @@
 (* UrlQuoteFacts.v -- proofs about the URI quoting helpers (C12): for every URL string that
-   helper.string can represent (CssV.QuoteFacts.representable: any code points, backslashes and
-   newline characters included, except a backslash run of odd length directly before a double quote
-   and a backslash directly before a newline character), helper.uri writes a text whose first token
+   helper.string can represent (CssV.QuoteStrFacts.representable_str: any code points, backslashes and
+   newline characters included, except a backslash run of odd length directly before a double
+   quote), helper.uri writes a text whose first token
    is the URI token spanning exactly that text, and helper.urivalue / _uritokenvalue read the
    original string back from the token value.  The URI production is taken apart structurally
    (re_URI_shape, by reflexivity against the regenerated Gen/Productions.v); its quoted body is the
@@ -9,7 +9,7 @@
    (body_iter, unicodesub_loop, replace_loop) are reused; character-class facts that depend on the
    regenerated tables are finite checks by vm_compute.                                          *)
 From CssV Require Import Base Regex RegexFacts Gen.Productions Gen.TokTables Gen.PyTables Tokenizer TokenizerFacts
-  Quote Gen.Quote QuoteFacts Gen.UrlQuote UrlQuote.
+  Quote Gen.Quote QuoteFacts QuoteStrFacts Gen.UrlQuote UrlQuote.
 
 (* ------------------------------------------------------------------ str library *)
 
@@ -269,13 +269,116 @@ Proof.
   - lia.
 Qed.
 
-(* the quoted body: C03's body_iter, the closing quote, then the tail *)
+(* ------------------------------------------------------------------ the string inside url(): no cleanstring
+   The tokenizer applies cleanstring to STRING tokens only, so inside url("...") a backslash directly
+   before a newline character needs no line continuation: helper.string(value, False) writes
+   backslash + newline escape, which is read back.  C03's body_iter / unicodesub_loop are stated for
+   rep_ok (which excludes that case because of STRING tokens); here they are re-proved for the
+   spelling hstring_loop under rep_okc (everything but an odd backslash run before a double quote). *)
+Section UriUnits.
+  Variable R : Type.
+  Variables (kq : cont R) (res : R) (follow : str).
+  Hypothesis Hkq : forall p, kq p (34%N :: follow) = Some res.
+
+  Lemma body_iter_uri : forall r st, rep_okc st r = true ->
+    Iter R kq res (pre st ++ hstring_loop st r ++ 34%N :: follow).
+  Proof.
+    assert (Upair : Unit R [92; 92]%N) by (apply unit_pair; reflexivity).
+    assert (P53 : Unit R [53%N]) by (apply unit_plain; discriminate).
+    assert (P99 : Unit R [99%N]) by (apply unit_plain; discriminate).
+    assert (P32 : Unit R [32%N]) by (apply unit_plain; discriminate).
+    assert (Pnl : forall h, h = 97%N \/ h = 100%N \/ h = 99%N -> Unit R [h])
+      by (intros h [->|[->| ->]]; apply unit_plain; discriminate).
+    induction r as [|c r IH]; intros st Hok.
+    - destruct st; cbn [pre hstring_loop app]; unfold str_end1, str_end2.
+      + apply Iter_close. exact Hkq.
+      + apply (Iter_unit R kq res [92; 92]%N); [exact Upair|discriminate|apply Iter_close; exact Hkq].
+      + apply (Iter_unit R kq res [92; 92]%N); [exact Upair|discriminate|].
+        apply (Iter_unit R kq res [92; 53; 99; 32]%N); [apply unit_5c|discriminate|apply Iter_close; exact Hkq].
+    - cbn [rep_okc] in Hok. cbn [hstring_loop]. unfold str_bs, str_s1_first, str_s2_first, str_s1_hex, str_s2_hex, str_s1_else, str_s2_else.
+      destruct st; destruct (N.eqb_spec c 92) as [->|Hc].
+      + apply (IH S1 Hok).
+      + destruct (unit_str_plain R c Hc) as (us & -> & Hu & Hn). cbn [pre app]. rewrite <- app_assoc.
+        apply Iter_units; auto. apply (IH SN Hok).
+      + cbn [pre app]. apply (IH S2 Hok).
+      + (* S1, other: not a quote *)
+        apply andb_true_iff in Hok as [H1 H3]. apply negb_true_iff in H1. apply N.eqb_neq in H1.
+        cbn [pre app]. change (mem c str_hexdigits) with (ishex c).
+        destruct (str_plain_cases c Hc) as [[-> _]|[[-> Ep]|[[-> Ep]|[[-> Ep]|(_ & Hn & Ep)]]]]; try congruence; rewrite Ep.
+        * (* \n *) change (ishex 10) with false. cbv iota. cbn [app].
+          apply (Iter_unit R kq res [92; 92]%N); [exact Upair|discriminate|].
+          apply (Iter_unit R kq res [97%N]); [apply Pnl; auto|discriminate|].
+          apply (Iter_unit R kq res [32%N]); [exact P32|discriminate|apply (IH SN H3)].
+        * change (ishex 13) with false. cbv iota. cbn [app].
+          apply (Iter_unit R kq res [92; 92]%N); [exact Upair|discriminate|].
+          apply (Iter_unit R kq res [100%N]); [apply Pnl; auto|discriminate|].
+          apply (Iter_unit R kq res [32%N]); [exact P32|discriminate|apply (IH SN H3)].
+        * change (ishex 12) with false. cbv iota. cbn [app].
+          apply (Iter_unit R kq res [92; 92]%N); [exact Upair|discriminate|].
+          apply (Iter_unit R kq res [99%N]); [apply Pnl; auto|discriminate|].
+          apply (Iter_unit R kq res [32%N]); [exact P32|discriminate|apply (IH SN H3)].
+        * destruct (ishex c) eqn:Eh; cbn [app].
+          -- apply (Iter_unit R kq res [92; 53; 99; 32]%N); [apply unit_5c|discriminate|].
+             apply (Iter_unit R kq res [c]); [apply plain_hexdigit; exact Eh|discriminate|apply (IH SN H3)].
+          -- apply (Iter_unit R kq res [92%N; c]); [apply unit_pair; assumption|discriminate|apply (IH SN H3)].
+      + cbn [pre app]. apply (Iter_unit R kq res [92; 92]%N); [exact Upair|discriminate|]. apply (IH S1 Hok).
+      + (* S2, other *)
+        cbn [pre app]. change (mem c str_hexdigits) with (ishex c). destruct (ishex c) eqn:Eh; cbn [app].
+        * apply (Iter_unit R kq res [92; 92]%N); [exact Upair|discriminate|].
+          apply (Iter_unit R kq res [53%N]); [exact P53|discriminate|]. apply (Iter_unit R kq res [99%N]); [exact P99|discriminate|].
+          apply (Iter_unit R kq res [32%N]); [exact P32|discriminate|].
+          destruct (unit_str_plain R c Hc) as (us & -> & Hu & Hn). rewrite <- app_assoc.
+          apply Iter_units; auto. apply (IH SN Hok).
+        * apply (Iter_unit R kq res [92; 92]%N); [exact Upair|discriminate|].
+          destruct (unit_str_plain R c Hc) as (us & -> & Hu & Hn). rewrite <- app_assoc.
+          apply Iter_units; auto. apply (IH SN Hok).
+  Qed.
+End UriUnits.
+
+Lemma unicodesub_loop_uri tl tb : Us tl tb -> (exists x t', tl = x :: t' /\ ishex x = false) ->
+  forall r st, rep_okc st r = true -> Us (hstring_loop st r ++ tl) (bloop st r ++ tb).
+Proof.
+  intros Htl (x0 & t0 & Etl & Hx0). induction r as [|c r IH]; intros st Hok.
+  - destruct st; cbn [hstring_loop bloop app]; unfold str_end1, str_end2; cbn [app].
+    + exact Htl.
+    + apply Us_bs; [reflexivity|]. rewrite Etl. apply Us_bs; [exact Hx0|]. rewrite <- Etl. exact Htl.
+    + apply Us_bs; [reflexivity|]. apply Us_5c. exact Htl.
+  - cbn [rep_okc] in Hok. cbn [hstring_loop bloop].
+    unfold str_bs, str_s1_first, str_s2_first, str_s1_hex, str_s2_hex, str_s1_else, str_s2_else.
+    change (mem c str_hexdigits) with (ishex c).
+    assert (Hhd : c <> 92%N -> ishex c = false -> exists y t', str_plain c ++ hstring_loop SN r ++ tl = y :: t' /\ ishex y = false).
+    { intros Hc Eh. destruct (str_plain_cases c Hc) as [[-> ->]|[[-> ->]|[[-> ->]|[[-> ->]|(_ & _ & ->)]]]]; cbn [app]; eauto. }
+    destruct st; destruct (N.eqb_spec c 92) as [->|Hc].
+    + apply (IH S1 Hok).
+    + rewrite <- !app_assoc. apply bplain_str_plain; [exact Hc|right; exact I|apply (IH SN Hok)].
+    + cbn [app]. destruct (loop_head S2 r tl) as [t' Et']; [discriminate|]. rewrite Et'.
+      apply Us_bs; [reflexivity|]. rewrite <- Et'. apply (IH S2 Hok).
+    + apply andb_true_iff in Hok as [H1 H3]. apply negb_true_iff in H1. apply N.eqb_neq in H1.
+      destruct (ishex c) eqn:Eh; cbn [app].
+      * destruct (str_plain_cases c Hc) as [[-> _]|[[-> _]|[[-> _]|[[-> _]|(_ & _ & Ep)]]]]; try congruence; try discriminate.
+        rewrite Ep. unfold bplain. replace (N.eqb c 34) with false by (symmetry; apply N.eqb_neq; exact H1). cbn [app].
+        apply Us_5c. apply Us_plain; [exact Hc|]. apply (IH SN H3).
+      * rewrite <- !app_assoc. destruct (Hhd Hc eq_refl) as (y & t' & Ey & Hy). rewrite Ey.
+        apply Us_bs; [exact Hy|]. rewrite <- Ey.
+        apply bplain_str_plain; [exact Hc|right; exact I|apply (IH SN H3)].
+    + cbn [app]. destruct (loop_head S1 r tl) as [t' Et']; [discriminate|]. rewrite Et'.
+      apply Us_bs; [reflexivity|]. rewrite <- Et'. apply (IH S1 Hok).
+    + destruct (ishex c) eqn:Eh; cbn [app].
+      * destruct (str_plain_cases c Hc) as [[-> _]|[[-> _]|[[-> _]|[[-> _]|(H34 & _ & Ep)]]]]; try discriminate.
+        rewrite Ep. unfold bplain. replace (N.eqb c 34) with false by (symmetry; apply N.eqb_neq; exact H34). cbn [app].
+        apply Us_5c. apply Us_plain; [exact Hc|]. apply (IH SN Hok).
+      * rewrite <- !app_assoc. destruct (Hhd Hc eq_refl) as (y & t' & Ey & Hy). rewrite Ey.
+        apply Us_bs; [exact Hy|]. rewrite <- Ey.
+        apply bplain_str_plain; [exact Hc|right; exact I|apply (IH SN Hok)].
+Qed.
+
+(* the quoted body: body_iter_uri, the closing quote, then the tail *)
 Lemma body_quoted {R} v follow p (kf : cont R) r :
-  representable v -> (forall p', kf p' follow = Some r) ->
+  representable_str v -> (forall p', kf p' follow = Some r) ->
   m re_BODY p (34%N :: hstring_loop SN v ++ 34%N :: 41%N :: follow) (fun p' t' => m re_TAIL p' t' kf) = Some r.
 Proof.
   intros Hv Hk. unfold re_BODY. rewrite !m_alt, m_cat, m_chr_hit, m_cat, m_rep, re_SC_is_body_dq.
-  pose proof (body_iter R (fun p0 t0 => m (Chr 34) p0 t0 (fun p' t' => m re_TAIL p' t' kf)) r (41%N :: follow)) as Hi.
+  pose proof (body_iter_uri R (fun p0 t0 => m (Chr 34) p0 t0 (fun p' t' => m re_TAIL p' t' kf)) r (41%N :: follow)) as Hi.
   rewrite (Hi (fun p0 => eq_trans (m_chr_hit 34 p0 _ _) (eq_trans (tail_step _ _ _) (Hk _))) v SN Hv); [reflexivity|].
   cbn [pre app]. lia.
 Qed.
@@ -385,7 +488,7 @@ Definition survives (v : str) : Prop :=
 
 Lemma huri_bare v : forbidden v = false -> huri v = url4 ++ v ++ [41%N].
 Proof. intros H. unfold huri. rewrite H. reflexivity. Qed.
-Lemma huri_quoted v : forbidden v = true -> huri v = url4 ++ (34%N :: hstring_loop SN v ++ [34%N]) ++ [41%N].
+Lemma huri_quoted v : forbidden v = true -> huri v = url4 ++ (34%N :: hstring_loop SN v ++ [34%N]) ++ [41%N].  (* hstring_uri *)
 Proof. intros H. unfold huri. rewrite H, hstring_unfold. reflexivity. Qed.
 
 (* body = what is written between url( and ), vbody = the same part of the token value (after unicodesub) *)
@@ -443,7 +546,7 @@ Proof.
     destruct (N.eqb_spec 34 q) as [<-|_]; [rewrite (proj1 forb_consts) in Hq; discriminate|]. reflexivity.
 Qed.
 
-Theorem uri_quoted_lemma v : representable v -> forbidden v = true -> survives v.
+Theorem uri_quoted_lemma v : representable_str v -> forbidden v = true -> survives v.
 Proof.
   intros Hv Hf.
   apply (survives_body v (34%N :: hstring_loop SN v ++ [34%N]) (34%N :: bloop SN v ++ [34%N])).
@@ -456,18 +559,18 @@ Proof.
     assert (HU : Us (117 :: 114 :: 108 :: 40 :: 34 :: hstring_loop SN v ++ [34; 41])%N
                     (117 :: 114 :: 108 :: 40 :: 34 :: bloop SN v ++ [34; 41])%N).
     { do 5 (apply Us_plain; [discriminate|]).
-      apply unicodesub_loop; [exact Utl| |exact Hv]. exists 34%N, [41%N]. split; reflexivity. }
+      apply unicodesub_loop_uri; [exact Utl| |exact Hv]. exists 34%N, [41%N]. split; reflexivity. }
     apply HU. lia.
   - apply strip_nonspace; reflexivity.
   - unfold quoted. cbn [mem N.eqb Pos.eqb orb andb].
     change (34%N :: bloop SN v ++ [34%N]) with ((34%N :: bloop SN v) ++ [34%N]). rewrite last_last. cbn [N.eqb Pos.eqb].
     cbn [app py_index0]. unfold py_replace. cbn [length].
-    rewrite (Rp_plain 34 (bloop SN v ++ [34%N]) (v ++ [34%N])); [|discriminate|apply (replace_loop v SN Hv)|cbn [length]; lia].
+    rewrite (Rp_plain 34 (bloop SN v ++ [34%N]) (v ++ [34%N])); [|discriminate|apply (replacec_loop v SN Hv)|cbn [length]; lia].
     rewrite py_slice_1_1. reflexivity.
 Qed.
 
 (* every value helper.string can represent survives; which form helper.uri chooses does not matter *)
-Theorem uri_roundtrip_lemma v : representable v -> survives v.
+Theorem uri_roundtrip_lemma v : representable_str v -> survives v.
 Proof.
   intros Hv. destruct (forbidden v) eqn:E.
   - apply uri_quoted_lemma; assumption.
@@ -477,8 +580,8 @@ Qed.
 (* the property's own set (no backslash, no newline character) is inside the representable values *)
 Definition UrlChars (v : str) : Prop :=
   forall c, In c v -> c <> 92%N /\ c <> 10%N /\ c <> 13%N /\ c <> 12%N.
-Lemma UrlChars_representable v : UrlChars v -> representable v.
-Proof. intros H. apply nobs_representable. intros Hin. apply H in Hin. tauto. Qed.
+Lemma UrlChars_representable v : UrlChars v -> representable_str v.
+Proof. intros H. apply nobs_representable_str. intros Hin. apply H in Hin. tauto. Qed.
 
 (* a value with a backslash is always written quoted (the bare form would start an escape) *)
 Lemma backslash_is_quoted v : In 92%N v -> forbidden v = true.
